@@ -253,8 +253,12 @@ def run_one(profile_name: str, seed: int, ops: list | None = None,
                     break
             else:
                 op = ops[step]
-            for m in monitors:
-                m.pre(op, snap)
+            world.extra["fresh_mode"] = True
+            try:
+                for m in monitors:
+                    m.pre(op, snap)
+            finally:
+                world.extra["fresh_mode"] = False
             out = execute(world, op)
             world.stats["op:" + op["op"]] += 1
             world.stats["out:" + out["status"]] += 1
